@@ -420,7 +420,16 @@ class Ctx:
             path, sh, pr = running.pop(0)
             out, err = pr.communicate()
             results[path] = (pr.returncode, out, err, sh)
-        for path, (rc, out, err, sh) in results.items():
+        for path, (rc, out, err, sh) in list(results.items()):
+            if rc == 124:
+                # the evaluation ran out of time (a loaded machine, not a disagreement): retry once, alone, with a
+                # five times longer limit before reporting the shard as an obligation that no longer checks
+                self.bump("coq_shard_retried_after_timeout")
+                pr = subprocess.run(["timeout", str(5 * timeout), "coqc", "-Q", COQ, "QV", path],
+                                    capture_output=True, text=True, cwd=self.work)
+                rc, out, err = pr.returncode, pr.stdout, pr.stderr
+                if rc == 124:
+                    err = f"coqc timed out twice ({timeout}s, {5 * timeout}s) on {os.path.basename(path)}"
             if rc != 0:
                 errors.append((path, (out + err)[-2000:]))
                 continue
